@@ -25,6 +25,8 @@ def main():
         pf = os.path.join(VERIF, 'harmless', name, 'patch.diff')
         if not os.path.exists(pf) or frag not in open(pf).read():
             continue
+        if '--skip' in sys.argv and name in sys.argv[sys.argv.index('--skip') + 1].split(','):
+            continue
         sh(['git', 'checkout', '--', '.'], cwd=wt)
         rc, out = sh(['git', 'apply', pf], cwd=wt)
         if rc != 0:
